@@ -37,3 +37,14 @@ Definition read_back (h m sec micro : N) : option (N * N * N * N) :=
   | None => None
   end.
 
+
+(* DATE#{:0>4}-{:0>2}-{:0>2} (and the date part of DATE_AND_TIME#): the three fields, each read back by integer() *)
+Definition digits4 (y : N) : list N := [y / 1000 mod 10; y / 100 mod 10; y / 10 mod 10; y mod 10].
+Definition year_text (y : N) : text := map char_of_digit (digits4 y).
+Definition two_text (v : N) : text := map char_of_digit (two_digits v).
+Definition date_text (y m d : N) : text := year_text y ++ 45 :: two_text m ++ 45 :: two_text d.
+Definition date_read_back (y m d : N) : option (N * N * N) :=
+  match integer_new (year_text y), integer_new (two_text m), integer_new (two_text d) with
+  | Some a, Some b, Some c => date_literal a b c
+  | _, _, _ => None
+  end.
